@@ -160,6 +160,43 @@ theorem readBySource_relabel (codec : Option Codec) (σ : Nat → Nat) (o : SegO
       exact hkey (some s)
   · simp only [hk, mt hnd.mp hk, not_false_eq_true, ↓reduceIte]
 
+theorem mapO_sources (σ : Nat → Option Nat) (l ks : List (Option Nat × Nat))
+    (h : mapO (fun k : Option Nat × Nat => (σ k.2).map fun f => (k.1, f)) l = some ks) :
+    ks = l.map (fun k => (k.1, (σ k.2).getD 0)) ∧ ∀ k ∈ l, (σ k.2).isSome := by
+  induction l generalizing ks with
+  | nil => simp only [mapO, Option.some.injEq] at h; subst h; simp
+  | cons a t ih =>
+    simp only [mapO] at h
+    cases hσ : σ a.2 with
+    | none => rw [hσ] at h; simp at h
+    | some v =>
+      rw [hσ] at h
+      cases ht : mapO (fun k : Option Nat × Nat => (σ k.2).map fun f => (k.1, f)) t with
+      | none => rw [ht] at h; simp at h
+      | some bs =>
+        rw [ht] at h
+        simp only [Option.map_some, Option.some.injEq] at h
+        subst h
+        obtain ⟨h1, h2⟩ := ih bs ht
+        refine ⟨by simp [hσ, h1], ?_⟩
+        intro k hk
+        rcases List.mem_cons.mp hk with rfl | hk
+        · simp [hσ]
+        · exact h2 k hk
+
+/-- a usable table of recorded source numbers is the relabelling by those numbers, and every stored frame has one -/
+theorem recordedSources_eq (σ : Nat → Option Nat) (o o' : SegObj) (h : recordedSources σ o = some o') :
+    o' = relabelSources (fun p => (σ p).getD 0) o ∧ ∀ k ∈ o.keys, (σ k.2).isSome := by
+  unfold recordedSources at h
+  cases hm : mapO (fun k : Option Nat × Nat => (σ k.2).map fun f => (k.1, f)) o.keys with
+  | none => rw [hm] at h; simp at h
+  | some ks =>
+    rw [hm] at h
+    simp only [Option.map_some, Option.some.injEq] at h
+    obtain ⟨h1, h2⟩ := mapO_sources σ o.keys ks hm
+    subst h
+    exact ⟨by unfold relabelSources; rw [h1], h2⟩
+
 /-! ## the frames are stored in dimension order -/
 
 theorem lexLt_cons_lt (a b : Nat) (as bs : List Nat) (h : a < b) : lexLt (a :: as) (b :: bs) = true := by
